@@ -19,6 +19,7 @@ def log2up : Nat → Nat
 def c15_ok (subj new R : Nat) (forged : Bool) (failH : Option Nat) (res : String) (reqs promoted : List Nat) : Option String :=
   let tv := c15tv R new forged
   let d := new - subj
+  if res == "nonterminating" then some "c15_terminates" else
   if res == "other" || res == "soft" then some "c15_result_class" else
   -- accepted ⇒ a chain of successful verifications through the promoted intermediates exists
   if res == "ok" && !chainOkB tv subj promoted new then some "c15_sound" else
